@@ -155,6 +155,25 @@ def work(item):
                                     return replay_finite(topo, symtype, style, flags, env, nm, i, numeric)
 
                                 acc.query(prover, topo, tag, f"finite({nm}[{i}])", s.d, Dn, (), on_sat)
+    # elements that merely share a *name* (validation accepts them: duplicates are judged by object identity) must still compile
+    if do_casadi and bits == 0:
+        def samename(s):
+            return {"L": "seg", "O": "od", "D": "od"}.get(s[0], s) if s not in topo.nodes else s
+        for symtype in ("SX", "MX"):
+            for compact in (0, 1, 2):
+                ex["compilations"] += 1
+                tag = f"casadi[{symtype}/c{compact}/same-names]"
+                try:
+                    F, b2, P, declared = runs.cas_function(topo, symtype, netcheck.casadi_numeric_for(topo), compact, True, flags, rename=samename)
+                    ok2, _ = b2.net.is_valid()
+                    ins, outs = layout.expected(topo, b2, compact, list(declared), True)
+                    got_in = [F.size1_in(i) * F.size2_in(i) for i in range(F.n_in())]
+                    if ok2 and (F.n_in() != len(ins) or got_in != [len(z) for _, z in ins]):
+                        acc.exec_violation(PID, topo, tag, style, f"with equally named elements the function has argument sizes {got_in}, the network has {[len(z) for _, z in ins]}", flags,
+                                           {"compact": compact, "more_out": True})
+                except Exception as e:  # noqa
+                    acc.exec_violation(PID, topo, tag, style, f"step/to_function raised {type(e).__name__} when distinct elements share a name: {str(e)[:200]}", flags,
+                                       {"compact": compact, "more_out": True, "samename": True})
     # plain execution companions (stated as such): engine's own variables; boundary points
     if bits == 0 and style == "array":
         from sym_metanet.engines.numpy import Engine as NE
